@@ -452,7 +452,11 @@ class IntegerFieldFormat(AbstractFieldFormat):
                 # For fixed data format, use an implicit range starting from
                 # 1 to take into account that leading and trailing blanks
                 # might be missing from the rule parts.
-                assert self.length.lower_limit == self.length.upper_limit
+                if (self.length.upper_limit is None) or (self.length.lower_limit != self.length.upper_limit):
+                    raise errors.InterfaceError(
+                        "length of field %s for fixed data format must be a specific number but is: %s"
+                        % (_compat.text_repr(field_name), self.length)
+                    )
                 length = ranges.Range("1...%d" % self.length.upper_limit)
             length_range = ranges.create_range_from_length(length)
 
